@@ -1949,6 +1949,20 @@ fn generate_packet_view(
             for f in unconstrained_parent_fields {
                 if let Some(id) = f.id() {
                     field_parsers.push(format!("{}_ = parent.{}_;", id, id));
+                    // Array accessors also read the count and element size members.
+                    for pf in scope.iter_parents(decl).flat_map(|p| p.fields()) {
+                        match &pf.desc {
+                            ast::FieldDesc::Count { field_id, .. } if field_id == id => {
+                                field_parsers.push(format!("{id}_count_ = parent.{id}_count_;"))
+                            }
+                            ast::FieldDesc::ElementSize { field_id, .. } if field_id == id => {
+                                field_parsers.push(format!(
+                                    "{id}_element_size_ = parent.{id}_element_size_;"
+                                ))
+                            }
+                            _ => {}
+                        }
+                    }
                 }
             }
         }
